@@ -16,7 +16,7 @@
 import Proofs.SaveWrite
 import Proofs.SaveHashPath
 import Proofs.SaveWriteRefines
-import Proofs.SaveReopen
+import Proofs.SaveSession
 namespace Pyctr.C18
 open Pyctr Pyctr.Save
 
@@ -187,6 +187,33 @@ theorem C18_reopen_diff (H : Bytes → Bytes) (mac : Bytes → Bytes → Bytes) 
     (hwf : descWFB ⟨p.difi, p.ivfc, p.dpfs, p.master⟩ p.descSize = true)
     (hL1 : 0x200 ≤ c.tableOff) (hL2 : c.tableOff + c.tableSize ≤ p.pOff) (hL3 : p.pOff ≤ c.F.length)
     (h : lv4Write H mac cm c 0 data = .ok (n, c')) : Synced H c' :=
-  lv4Write_synced_diff H mac cm c p hk hp data n c' hH hmac hs hg (tablesApart_of_b _ _ hta) (descWF_of_b _ _ hwf) hL1 hL2 hL3 h
+  lv4Write_synced_diff H mac cm c p hk hp data n c' hH hmac hs (geomOK_spec _ _ _ hg) (tablesApart_of_b _ _ hta) (descWF_of_b _ _ hwf) hL1 hL2 hL3 h
+
+/-- **re-opening after a write (DISA, either partition)** -/
+theorem C18_reopen_disa (H : Bytes → Bytes) (mac : Bytes → Bytes → Bytes) (cm : Option CmacScheme) (c : Cont) (pi : Nat)
+    (p : PartSt) (hk : c.kind = .disa) (hp : c.parts[pi]? = some p) (data : Bytes) (n : Nat) (c' : Cont)
+    (hH : ∀ x, (H x).length = 0x20) (hmac : ∀ k x, (mac k x).length = 0x10)
+    (hs : Synced H c)
+    (hg : geomOK (p.P c.F) p.tree p.master = true)
+    (hta : tablesApartB p.dpfs p.tree = true)
+    (hwf : descWFB ⟨p.difi, p.ivfc, p.dpfs, p.master⟩ p.descSize = true)
+    (hL : reopenLayoutB c pi p = true)
+    (h : lv4Write H mac cm c pi data = .ok (n, c')) : Synced H c' :=
+  lv4Write_synced_disa H mac cm c pi p hk hp data n c' hH hmac hs (geomOK_spec _ _ _ hg) (tablesApart_of_b _ _ hta)
+    (descWF_of_b _ _ hwf) (disaLayout_of_b _ _ _ hL) h
+
+/-- **every session, either container kind**: open a container that meets the (decidable) regularity conditions, make ANY
+    sequence of seeks, reads and writes through the verified level-4 views of its partitions (stopping at the first exception):
+    re-opening the file afterwards gives exactly the state the session holds - same header, same descriptors, same master
+    hashes, same DPFS selection.  The regularity conditions themselves are part of the invariant (`Good`): they are proved to
+    survive every operation, so they need to be checked on the opened image only - the driver does so for every generated
+    image (`save-hyp`). -/
+theorem C18_reopen_session (H : Bytes → Bytes) (mac : Bytes → Bytes → Bytes) (cm : Option CmacScheme) (kind : Kind) (F : Bytes)
+    (w : Bool) (c c' : Cont) (ops : List Lv4Op)
+    (hH : ∀ x, (H x).length = 0x20) (hmac : ∀ k x, (mac k x).length = 0x10)
+    (ho : openCont H kind F w = .ok c) (hr : regularB c = true)
+    (hrun : lv4Run H mac cm c ops = .ok c') : Synced H c' ∧ ∀ pi p, c'.parts[pi]? = some p → PartOK c' pi p :=
+  have hG := lv4Run_good H mac cm hH hmac ops c c' (good_of_regular H kind F w c ho hr) hrun
+  ⟨hG.1, hG.2⟩
 
 end Pyctr.C18
